@@ -53,11 +53,12 @@ type vc02Object struct {
 	Phantom   int        `json:"phantom"`   // index into scenario phantoms (ignored for ingest objects)
 	LibVer    uint       `json:"libver"`
 	Params    vc02Params `json:"params"`
+	Flags     []string   `json:"flags"`  // registration flags the client / sharing station set: prescanned, upload_only, dark_decoy, proxy_header, use_til
 	Ingest    bool       `json:"ingest"` // build through RegistrationManager.NewRegistration (real phantom selection)
 	Gen       uint32     `json:"gen"`
 }
 type vc02Op struct {
-	Op  string `json:"op"` // track | track_ine | validate | expire | sweep
+	Op  string `json:"op"` // track | track_ine | validate | expire | sweep | advance
 	Obj int    `json:"obj"`
 }
 type vc02Flight struct {
@@ -339,12 +340,30 @@ func (w *vc02World) buildObject(i int, o vc02Object) {
 	case "generic":
 		anyParams, _ = anypb.New(&pb.GenericTransportParams{RandomizeDstPort: proto.Bool(false)})
 	}
+	var flags *pb.RegistrationFlags
+	if len(o.Flags) > 0 {
+		flags = &pb.RegistrationFlags{}
+		for _, f := range o.Flags {
+			switch f {
+			case "prescanned":
+				flags.Prescanned = proto.Bool(true)
+			case "upload_only":
+				flags.UploadOnly = proto.Bool(true)
+			case "dark_decoy":
+				flags.DarkDecoy = proto.Bool(true)
+			case "proxy_header":
+				flags.ProxyHeader = proto.Bool(true)
+			case "use_til":
+				flags.Use_TIL = proto.Bool(true)
+			}
+		}
+	}
 	var reg *DecoyRegistration
 	if o.Ingest {
 		v := uint32(o.LibVer)
 		covert := "1.2.3.4:56789"
 		c2s := &pb.ClientToStation{ClientLibVersion: &v, Transport: &tt, CovertAddress: &covert,
-			DecoyListGeneration: proto.Uint32(o.Gen), TransportParams: anyParams}
+			DecoyListGeneration: proto.Uint32(o.Gen), TransportParams: anyParams, Flags: flags}
 		src := pb.RegistrationSource_API
 		reg, err = w.rm.NewRegistration(c2s, &keys, false, &src)
 		if err != nil {
@@ -379,7 +398,7 @@ func (w *vc02World) buildObject(i int, o vc02Object) {
 			PhantomIp: net.ParseIP(w.sc.Phantoms[o.Phantom]), PhantomPort: 443, PhantomProto: pb.IPProto_Tcp,
 			Keys: &keys, Covert: "1.2.3.4:56789", Transport: tt, TransportPtr: &trI, transportParams: params,
 			RegistrationTime: time.Now(), RegistrationSource: &src, DecoyListVersion: 1, clientLibVer: uint32(o.LibVer),
-			registrationAddr: net.ParseIP("10.9.8.7"),
+			registrationAddr: net.ParseIP("10.9.8.7"), Flags: flags,
 		}
 	}
 	w.objs[i] = reg
@@ -394,6 +413,16 @@ func (w *vc02World) runOp(op vc02Op) string {
 	rd := w.rm.registeredDecoys
 	switch op.Op {
 	case "sweep":
+		w.rm.RemoveOldRegistrations()
+		return ""
+	case "advance":
+		// seven hours pass for everything tracked so far (beyond the unused and the active lifetime),
+		// then the real sweep decides from its own records what goes
+		rd.m.Lock()
+		for _, to := range rd.decoysTimeouts {
+			to.registrationTime = to.registrationTime.Add(-7 * time.Hour)
+		}
+		rd.m.Unlock()
 		w.rm.RemoveOldRegistrations()
 		return ""
 	}
@@ -420,7 +449,7 @@ func (w *vc02World) runOp(op vc02Op) string {
 		rd.m.Lock()
 		for _, to := range rd.decoysTimeouts {
 			if to.decoy == ph && to.identifier == id {
-				to.registrationTime = time.Now().Add(-7 * time.Hour)
+				to.registrationTime = to.registrationTime.Add(-7 * time.Hour)
 				found++
 			}
 		}
